@@ -163,6 +163,21 @@ def run(ctx):
                       no_input=True)
     if not rep["ok"]:
         ctx.broken_build("Props/C10.v does not compile", rep["log"])
+    # ---- integrated scenarios (unmodified prober drives the unmodified process; test-level oracle = the property text:
+    #      EVERY run of failure_threshold consecutive failures since the last (re)launch stops and relaunches the process)
+    integ = [i for i in (stats.get("integrated") or []) if i]
+    bad_int = [i for i in integ if not i.get("note") and i["launches"] < i["min_expected"]]
+    if bad_int:
+        i = bad_int[0]
+        ctx.violation({"kind": "integrated-prober-process", "scenario": i, "scenarios": bad_int,
+                       "how_to_rerun": "bin/check C10 quick (the integrated scenarios run on every normal run)"},
+                      "readiness probe failing for ever, restart always, failure_threshold %d: after %.1f s the process was launched "
+                      "only %d time(s) (status %s, restarts %d), at least %d expected - it is not stopped and relaunched again "
+                      "after another failure_threshold consecutive failures"
+                      % (i["threshold"], i["seconds"], i["launches"], i["status"], i["restarts"], i["min_expected"]))
+    for i in integ:
+        if i.get("note"):
+            ctx.broken_build("integrated scenario could not run", i["note"])
     # ---- evidence
     allc = [(p, c) for p in PARTS for c in cases[p]]
 
